@@ -1197,7 +1197,11 @@ fn malformed_corpus() -> Vec<(String, Vec<u8>)> {
             body.extend_from_slice(&raw_entry(0, None, &[3, b'c', 0]));
             index_of(4, 2, &body, &[])
         }));
-        out.push(("hand-made v4 11-byte varint is outside the model".into(), vec![]));
+        out.push(("hand-made v4 11-byte varint".into(), {
+            let mut tail = vec![0x80u8; 10];
+            tail.extend_from_slice(&[1, b'a', 0]);
+            index_of(4, 1, &raw_entry(0, None, &tail), &[])
+        }));
     }
     // EWAH bitmaps whose literal count overruns the words, inside UNTR and link
     let ok = ewah_bytes(0, &[], 0);
@@ -1239,22 +1243,115 @@ fn malformed_corpus() -> Vec<(String, Vec<u8>)> {
         v.extend_from_slice(&one);
         v
     })])));
+    // offset tables pointing anywhere: two v2 entries "a" and "b" (64 bytes each), IEOT + a correct EOIE
+    {
+        let mut e1 = raw_entry(1, None, b"a");
+        e1.push(0);
+        let mut e2 = raw_entry(1, None, b"b");
+        e2.push(0);
+        let mut body = e1.clone();
+        body.extend_from_slice(&e2);
+        let with_ieot = |blocks: &[(u32, u32)], n: u32| -> Vec<u8> {
+            let mut ieot = be32(1).to_vec();
+            for (off, cnt) in blocks {
+                ieot.extend_from_slice(&be32(*off));
+                ieot.extend_from_slice(&be32(*cnt));
+            }
+            let mut h = gix_features::hash::hasher(gix_hash::Kind::Sha1);
+            h.update(b"IEOT");
+            h.update(&be32(ieot.len() as u32));
+            let mut eoie = be32(12 + body.len() as u32).to_vec();
+            eoie.extend_from_slice(&h.digest());
+            index_of(2, n, &body, &[(b"IEOT", ieot), (b"EOIE", eoie)])
+        };
+        let len = with_ieot(&[(12, 1), (76, 1)], 2).len() as u32;
+        for (label, blocks) in [
+            ("valid two blocks", vec![(12u32, 1u32), (76, 1)]),
+            ("valid one block", vec![(12, 2)]),
+            ("second block one past eof", vec![(12, 1), (len + 1, 1)]),
+            ("first block one past eof", vec![(len + 1, 1), (76, 1)]),
+            ("block at u32::MAX", vec![(12, 1), (u32::MAX, 1)]),
+            ("block exactly at eof", vec![(12, 1), (len, 1)]),
+            ("block at eof with no entries", vec![(12, 2), (len, 0)]),
+            ("block past eof with no entries", vec![(12, 2), (len + 7, 0)]),
+            ("block inside the header (0)", vec![(0, 1), (76, 1)]),
+            ("block inside the header (4)", vec![(4, 1), (76, 1)]),
+            ("block inside the header (11)", vec![(12, 1), (11, 1)]),
+            ("overlapping: both at the first entry", vec![(12, 1), (12, 1)]),
+            ("overlapping: second in the middle of the first", vec![(12, 1), (44, 1)]),
+            ("overlapping: first covers both, second repeats", vec![(12, 2), (76, 1)]),
+            ("reversed order", vec![(76, 1), (12, 1)]),
+            ("too many entries in a block", vec![(12, 1), (76, 2)]),
+            ("entry error in one group, offset past eof in a later one", vec![(13, 1), (len + 1, 1), (76, 1)]),
+            ("offset past eof first, entry error later", vec![(len + 9, 1), (13, 1), (76, 1)]),
+            ("three blocks, the last empty", vec![(12, 1), (76, 1), (140, 0)]),
+        ] {
+            out.push((format!("ieot {label}"), with_ieot(&blocks, 2)));
+        }
+    }
+    // nesting at the decoders' depth limit (4096)
+    for depth in [4095usize, 4096, 4097, 4098] {
+        // a chain of cache-tree nodes: the root (depth 0) plus `depth` nested children
+        let mut tree = Vec::new();
+        for k in 0..=depth {
+            if k > 0 {
+                tree.push(b'd');
+            }
+            tree.extend_from_slice(if k < depth { b"\x00-1 1\n" } else { b"\x00-1 0\n" });
+        }
+        out.push((format!("tree nested {depth} deep"), index_of(2, 0, &[], &[(b"TREE", tree)])));
+        // a chain of untracked-cache directory blocks
+        let ok = ewah_bytes(0, &[], 0);
+        let mut v = vec![3u8];
+        v.extend_from_slice(b"abc");
+        v.extend_from_slice(&[0u8; 36 + 36]);
+        v.extend_from_slice(&be32(6));
+        v.extend_from_slice(&[0u8; 40]);
+        v.extend_from_slice(b".gitignore\0");
+        let n = depth as u64 + 1;
+        // varint of the number of blocks (git's offset encoding, two or three bytes here)
+        let mut enc = vec![(n & 127) as u8];
+        let mut m = n >> 7;
+        while m != 0 {
+            m -= 1;
+            enc.insert(0, 128 | (m & 127) as u8);
+            m >>= 7;
+        }
+        v.extend_from_slice(&enc);
+        for k in 0..=depth {
+            v.push(0); // untracked
+            v.push(u8::from(k < depth)); // sub directories
+            v.extend_from_slice(b"d\0");
+        }
+        v.extend_from_slice(&ok);
+        v.extend_from_slice(&ok);
+        v.extend_from_slice(&ok);
+        v.push(0);
+        out.push((format!("untr nested {depth} deep"), index_of(2, 0, &[], &[(b"UNTR", v)])));
+    }
+    // FSMN announcing a bitmap larger than the extension
+    out.push(("fsmn bitmap size beyond the extension".into(), index_of(2, 0, &[], &[(b"FSMN", {
+        let mut v = be32(2).to_vec();
+        v.extend_from_slice(b"tok\0");
+        v.extend_from_slice(&be32(1000));
+        v.extend_from_slice(&ewah_bytes(1, &[1u64 << 33, 1], 0));
+        v
+    })])));
+    out.push(("fsmn v1".into(), index_of(2, 0, &[], &[(b"FSMN", {
+        let e = ewah_bytes(3, &[1u64 << 33, 5], 0);
+        let mut v = be32(1).to_vec();
+        v.extend_from_slice(&7u64.to_be_bytes());
+        v.extend_from_slice(&be32(e.len() as u32));
+        v.extend_from_slice(&e);
+        v
+    })])));
     out.retain(|(_, v)| !v.is_empty());
     out
 }
 
-/// byte ranges that must not be mutated because a huge count makes the real code allocate absurdly (abort, not a verdict)
-fn risky(data: &[u8], pos: usize) -> bool {
-    if pos < 12 {
-        return true;
-    }
-    // IEOT payload
-    if let Some(at) = data.windows(4).position(|w| w == b"IEOT") {
-        if pos >= at && pos < at + 8 + 4 + 8 * 64 {
-            return true;
-        }
-    }
-    false
+/// byte ranges that are not mutated: the header (a different version/count is a different test)
+fn risky(_data: &[u8], pos: usize) -> bool {
+    pos < 12
 }
 
 fn malformed_from(r: &mut Rng, base: &[u8]) -> (String, Vec<u8>) {
@@ -1389,9 +1486,8 @@ fn main() {
             }
         };
         let o = varint_obs(&data);
-        if o == "outside" {
-            rep.outside_domain("varint longer than 10 bytes (debug assertion in leb64_from_read)");
-            continue;
+        if o == "panic" {
+            rep.oracle_failure("varint-panics", "leb64_from_read panics", &format!("varint {}", hex(&data)));
         }
         rep.case(&format!("varint {}", hex(&data)), &o, true);
     }
@@ -1436,7 +1532,7 @@ fn main() {
 
 fn varint_obs(data: &[u8]) -> String {
     match catch(|| gix_features::decode::leb64_from_read(data)) {
-        Err(_) => "outside".into(),
+        Err(_) => "panic".into(),
         Ok(Err(_)) => "none".into(),
         Ok(Ok((v, n))) => format!("{} {}", v, hex(&data[n..])),
     }
